@@ -68,7 +68,7 @@ CLAIMED = {
              'Proof covers the tokeniser, integer folds with the half-width delegation chain, binary/octal/hex fractions, the decimal fast path dec_to_bin (four widening widths and the two-limb u128 '
              'version over the proved wide division) and the slow-path boundary loop. Tie: the 580-line function-by-function model agrees with the code on every request (hook on all 507 layouts x 4 radices '
              '+ 16 public entry points, grammar-/tie-directed literals up to 200 digits, malformed and non-UTF-8 input, both profiles); every implementation answer is also judged against the exact '
-             'specification. Two defects found this way were repaired (292489c, 8a5b41d).',
+             'specification. Two defects found this way were repaired (292489c, 8a5b41d). SfxProps/C08Spec.lean: the round-half-even sentence of rneDiv_spec has exactly one solution (IsNearestEven, nearest_even_unique), so the correctly rounded value of a literal is fixed by the sentence, not by the / and % formula.',
         design_ref='7/C08', note=COMMON_NOTE, technique='Lean 4 proof (model = exact rational specification) + differential correspondence'),
     'C09': dict(
         text='FULL. Theorems SfxProps.C09.holds (= C09_statement, for every valid layout, value, formatting trait and format spec with any sign/width/fill/alignment/+/#/0 and any precision < 2^16: '
